@@ -115,6 +115,7 @@ pub fn run(ctx: &mut Ctx) {
         let mut rng = ctx.rng(case);
         let mut cfg = cfg_for(ctx, case);
         cfg.big = case % 16 == 0;
+        cfg.node_subject = case % 4 == 1;
         let (_m, e) = universe(&mut rng, cfg, case);
         let key = fresh_key(&mut rng);
         let t = tree_of(&e);
@@ -190,6 +191,27 @@ pub fn run(ctx: &mut Ctx) {
                         Err(err) => ctx.violation("roundtrip-element/err", &format!("{}", err), jhex(&e)),
                     }
                 }
+            }
+        }
+        // an encrypted envelope (of any case, also a whole node) used as the subject of further
+        // assertions, then decrypted in place
+        {
+            ctx.eval();
+            ctx.count(&format!("encrypted_as_subject_{:?}", t.kind));
+            let placeholder = e.elide_removing_set_with_action(&gen::digest_set(&[t.digest]), &action(Act::Encrypt, &key));
+            let outer = placeholder.add_assertion("outer-pred", case).add_assertion(known_values::NOTE, "n");
+            let od = gen::root_digest(&outer);
+            match trap::guard(|| outer.decrypt_subject(&key)) {
+                Ok(Ok(d)) => {
+                    let dt = tree_of(&d);
+                    if dt.digest != od {
+                        ctx.violation(&format!("encrypted-as-subject/digest-changed/{:?}", t.kind), "decrypt_subject changed the digest", jhex(&outer));
+                    } else if dt.kind != Kind::Node || pos::diff(&dt.children[0], &t).is_some() {
+                        ctx.violation("encrypted-as-subject/subject-differs", "the decrypted subject is not the original envelope", jhex(&outer));
+                    }
+                }
+                Ok(Err(err)) => ctx.violation(&format!("encrypted-as-subject/err/{:?}", t.kind), &format!("decrypt_subject with the right key failed: {}", err), jhex(&outer)),
+                Err(p) => ctx.violation(&format!("encrypted-as-subject/panic/{}", p.signature()), &format!("{:?}", p), jhex(&outer)),
             }
         }
         // second encryption refused
